@@ -4,6 +4,7 @@
 //! are printed, not alarms); exit 1: VIOLATION line(s); exit >= 2: machinery failure, no verdict.
 mod ast;
 mod c03;
+mod c04;
 mod c05;
 mod c06;
 mod c07;
@@ -80,6 +81,7 @@ fn main() {
     let _ = replay;
     let report = match id.as_str() {
         "C03" => c03::run(&ctx),
+        "C04" => c04::run(&ctx),
         "C05" => c05::run(&ctx),
         "C06" => c06::run(&ctx),
         "C07" => c07::run(&ctx),
